@@ -34,6 +34,9 @@ usage: coord2lean.py --repo /repo --out <Coord.lean>
 """
 import argparse
 import ast
+import os as _os, sys as _sys
+_sys.path.insert(0, _os.path.dirname(_os.path.abspath(__file__)))
+from astnorm import normalise
 import os
 import sys
 
@@ -115,7 +118,7 @@ class Falls(Exception):
 class Tr:
     def __init__(self, path):
         self.path = path
-        self.tree = ast.parse(open(path).read(), filename=path)
+        self.tree = normalise(ast.parse(open(path).read(), filename=path))
         self.defs = []         # (class, method, lean lines)
         self.dropped = []
         self.tmp = 0
@@ -363,6 +366,17 @@ class Tr:
         d = ast.dump(e)
         if d == NOT_ALL_TYPES:
             return ('false',)
+        if isinstance(e, ast.UnaryOp) and isinstance(e.op, ast.Not):
+            r = self.cond(e.operand, env)
+            if r[0] == 'true':
+                return ('false',)
+            if r[0] == 'false':
+                return ('true',)
+            if r[0] == 'prop':
+                return ('prop', f'¬ ({r[1]})')
+            if r[0] == 'bool':
+                return ('bool', f'(!{r[1]})')
+            return ('opt', r[1], r[2], not r[3])
         if isinstance(e, ast.Call) and isinstance(e.func, ast.Name) and e.func.id == 'isinstance' and len(e.args) == 2:
             a, b = e.args
             if isinstance(a, ast.Name) and isinstance(b, ast.Name):
